@@ -165,8 +165,8 @@ func engineKind(pkg string) string {
 	return ""
 }
 
-func ruleReadSitesFiltered(e *Engine, r *Reporter, kinds map[string]bool) {
-	r.Rule("read-sites-filtered", "every iterator / tuple obtained from a RelationshipTupleReader by a query engine passes the model filter (FilterInvalidTuples / ValidateTupleForRead) and, except in Expand, a condition evaluation before its elements are used", 8)
+func ruleReadSitesFiltered(e *Engine, r *Reporter, kinds map[string]bool, floor int) {
+	r.Rule("read-sites-filtered", "every iterator / tuple obtained from a RelationshipTupleReader by a query engine passes the model filter (FilterInvalidTuples / ValidateTupleForRead) and, except in Expand, a condition evaluation before its elements are used", floor)
 	for _, s := range e.engineReadSites([]string{"internal/graph", "internal/checkutil", "internal/check", "internal/listobjects", "pkg/server/commands"}) {
 		kind := engineKind(short(pkgOf(s.fn)))
 		if kind == "" || !kinds[kind] {
